@@ -238,3 +238,18 @@ def _has_pardir(ex, s):
 def _calls(ex, name):
     """Number of opaque (dynamically dispatched) calls of method `name` on this path."""
     return sum(1 for e in ex.trace if e[0] == "call" and e[1] == name)
+
+
+@spec("range_start", lambda r: r.start)
+def _range_start(ex, r):
+    if isinstance(r, range):
+        return r.start
+    return r[1]
+
+
+@spec("range_len", lambda r: len(r))
+def _range_len(ex, r):
+    if isinstance(r, range):
+        return len(r)
+    lo, hi = ex.to_int_term(r[1]), ex.to_int_term(r[2])
+    return SInt(z3.If(hi - lo > 0, hi - lo, 0))
